@@ -9,3 +9,9 @@ type TypeEntry struct {
 	Kind string // struct | array | other
 	Ptr  any
 }
+
+// FuncEntry is one exported package-level function (as a func value, called by reflection).
+type FuncEntry struct {
+	Name string
+	Fn   any
+}
